@@ -114,7 +114,7 @@ where
     V: Into<OrderedFloat<f64>>,
 {
     fn unit() -> OrderedFloat<f64> {
-        OrderedFloat(f64::MIN)
+        OrderedFloat(f64::NEG_INFINITY)
     }
     #[inline]
     fn accumulate(accumulator: OrderedFloat<f64>, value: V) -> OrderedFloat<f64> {
@@ -155,7 +155,7 @@ where
     V: Into<OrderedFloat<f64>>,
 {
     fn unit() -> OrderedFloat<f64> {
-        OrderedFloat(f64::MAX)
+        OrderedFloat(f64::INFINITY)
     }
     #[inline]
     fn accumulate(accumulator: OrderedFloat<f64>, value: V) -> OrderedFloat<f64> {
